@@ -1,6 +1,7 @@
-import PdfModel.Model.Offsets
+import PdfModel.Model.OffsetsConcrete
 import PdfModel.Lemmas.SuffixMember
 import PdfModel.Lemmas.ShiftIndirect
+import PdfModel.Lemmas.Offsets
 
 /-!
   The token-level parsers of `Model/Offsets.lean` instantiated with the concrete lexer / parser models
@@ -17,50 +18,49 @@ open PdfLex
 
 variable {R : Type}
 
-def flagsNat : Offsets.Flags → Nat
-  | .any => PdfLex.Flags.any
-  | .integer => PdfLex.Flags.integer
+/-! ### the direct-object read in its real call shape -/
 
-def kwSize : List UInt8 := [83, 105, 122, 101]
-def kwPrev : List UInt8 := [80, 114, 101, 118]
-def kwN : List UInt8 := [78]
-def kwFirst : List UInt8 := [70, 105, 114, 115, 116]
+/-- **Reading a direct object under a prefix, concrete parser.** Whatever is written at the offset —
+    conformant or not — the prefixed file yields the same value, every stream range (nested ones too)
+    `p.length` further on; errors and panics correspond. -/
+theorem readObjectAt_prefix (env : Env R) (fuel : Nat) (p f : OffLex.Bytes) (s off flags : Nat) (hfit : Fits p f) :
+    readObjectAt env fuel (p ++ f) (p.length + s) off flags
+      = omap (shiftR p.length) (readObjectAt env fuel f s off flags) := by
+  unfold readObjectAt
+  rw [suffixAt_append p f s off hfit]
+  cases suffixAt f s off with
+  | ok qs =>
+    obtain ⟨q, sfx⟩ := qs
+    simp only
+    have e : ({ env with fileOffset := p.length + q } : Env R) = ({ env with fileOffset := q } : Env R).shiftOffset p.length := by
+      simp [Env.shiftOffset, Nat.add_comm]
+    rw [e, parseIndirectObject_offset]
+    cases parseIndirectObject { env with fileOffset := q } sfx.toArray fuel 0 flags <;> rfl
+  | err => rfl
+  | panic => rfl
+  | oof => rfl
 
-/-- `Primitive::as_usize` / `as_u32`: a non-negative integer -/
-def asNat (v : Prim R) : Out Nat :=
-  match v with
-  | .int n => if n ≥ 0 then .ok n.toNat else .err
-  | _ => .err
+/-! ### `locate_xref_offset` on the concrete lexer -/
 
-/-- what `parse_indirect_object` returned, in the vocabulary of `Offsets.ObjParse`: a stream is reported with
-    the range of its data relative to the buffer (the lexer offset is 0) -/
-def toObjParse (r : Out (((Nat × Nat) × Prim R) × Nat)) : Out (ObjParse (Prim R)) :=
-  match r with
-  | .ok ((_, .stream info (.inFile _ _ lo hi)), _) => .ok (.stream (.dict info) lo (.direct (hi - lo)))
-  | .ok ((_, v), _) => .ok (.plain v)
-  | .err => .err | .panic => .panic | .oof => .oof
-
-def concreteP (env : Env R) (pfuel : Nat) (dec : Dict R → OffLex.Bytes → Out OffLex.Bytes)
-    (X : OffLex.Bytes → Out (List Xref.Sub × Dict R)) (S : OffLex.Bytes → List (Out (Obj (Prim R)))) :
-    Parsers (Prim R) (Dict R) where
-  xrefAt := X
-  sizeOf := fun tr => match dictGet tr kwSize with
-    | some v => asNat v
-    | none => .err
-  prevOf := fun tr => (dictGet tr kwPrev).map asNat
-  objAt := fun fl sfx => toObjParse (parseIndirectObject { env with fileOffset := 0 } sfx.toArray pfuel 0 (flagsNat fl))
-  streamEnd := fun _ => .ok ()
-  asLen := asNat
-  stmHead := fun info => match info with
-    | .dict d =>
-      match dictGet d kwN, dictGet d kwFirst with
-      | some n, some f => (asNat n).bind fun n => (asNat f).bind fun f => .ok (n, f)
-      | _, _ => .err
-    | _ => .err
-  decode := fun info raw => match info with
-    | .dict d => dec d raw
-    | _ => .err
-  parseMember := fun fl slice => omap Prod.fst (parse { env with fileOffset := 0 } slice.toArray (flagsNat fl))
-  scanItems := S
+theorem locateXrefC_append (p f : OffLex.Bytes) (k : Nat)
+    (hk : OffLex.findLast startxrefKw (f.take (f.length - 1)) = some k) :
+    locateXrefC (p ++ f) = locateXrefC f := by
+  have hne : f ≠ [] := by rintro rfl; simp [OffLex.findLast] at hk
+  have hlen : 1 ≤ f.length := by cases f <;> simp_all
+  have htake : (p ++ f).take ((p ++ f).length - 1) = p ++ f.take (f.length - 1) := by
+    rw [List.take_append]
+    have : p.take ((p ++ f).length - 1) = p := by apply List.take_of_length_le; simp; omega
+    rw [this]; congr 2; simp; omega
+  unfold locateXrefC
+  rw [htake, findLast_append _ _ _ _ hk, hk]
+  simp only
+  have harr : (p ++ f).toArray = p.toArray ++ f.toArray := by simp
+  have hps : p.toArray.size = p.length := by simp
+  rw [harr, Nat.add_assoc, ← hps, next_shift]
+  cases PdfLex.next f.toArray (k + startxrefKw.length) with
+  | ok w => simp only [omap_ok, sh2, slice_shift]
+  | err => rfl
+  | panic => rfl
+  | oof => rfl
 
 end Offsets
